@@ -15,6 +15,9 @@ structure OutPipe where
   cap : Nat
   hold : Bool := false
   inflight : Option Msg := none  -- handed to the pipe's SendMsg, which has not returned yet
+  -- ghost: every copy offered to this pipe, and every copy its SendMsg completed, in order
+  offered : List Msg := []
+  sent : List Msg := []
 deriving Repr, BEq
 
 namespace OutPipe
@@ -24,10 +27,11 @@ namespace OutPipe
 def offer (p : OutPipe) (m : Msg) : OutPipe × List (Nat × Ev) × Bool :=
   match p.inflight with
   | none =>
-    if p.hold then ({ p with inflight := some m }, [], true)
-    else (p, [(p.id, txEv p.id m.1 m.2)], true)
+    if p.hold then ({ p with inflight := some m, offered := p.offered ++ [m] }, [], true)
+    else ({ p with offered := p.offered ++ [m], sent := p.sent ++ [m] }, [(p.id, txEv p.id m.1 m.2)], true)
   | some _ =>
-    if p.q.length < p.cap then ({ p with q := p.q ++ [m] }, [], true) else (p, [], false)
+    if p.q.length < p.cap then ({ p with q := p.q ++ [m], offered := p.offered ++ [m] }, [], true)
+    else ({ p with offered := p.offered ++ [m] }, [], false)
 
 /-- after the in-flight send has completed: the sender goes on draining the queue -/
 def drain : Nat → OutPipe → OutPipe × List (Nat × Ev)
@@ -38,7 +42,7 @@ def drain : Nat → OutPipe → OutPipe × List (Nat × Ev)
     | m :: rest =>
       if p.hold then ({ p with q := rest, inflight := some m }, [])
       else
-        let (p', evs) := drain fuel { p with q := rest }
+        let (p', evs) := drain fuel { p with q := rest, sent := p.sent ++ [m] }
         (p', (p.id, txEv p.id m.1 m.2) :: evs)
 
 /-- the pipe's SendMsg returns successfully -/
@@ -46,7 +50,7 @@ def releaseOk (p : OutPipe) : OutPipe × List (Nat × Ev) :=
   match p.inflight with
   | none => (p, [])
   | some m =>
-    let (p', evs) := drain (p.q.length + 1) { p with inflight := none }
+    let (p', evs) := drain (p.q.length + 1) { p with inflight := none, sent := p.sent ++ [m] }
     (p', (p.id, txEv p.id m.1 m.2) :: evs)
 
 end OutPipe
